@@ -204,15 +204,22 @@ def execute(plan, choice, tmpdir, trace):
             idx_arg = ip
         else:
             idx_arg = list(sel_offs)
-    if is_record:
-        Raw = make_record_class()
-        obj = cls(path, Raw, idx_arg)
-        unwrap = lambda r: r.text  # noqa: E731
-    else:
-        obj = cls(path, idx_arg)
-        unwrap = lambda r: r  # noqa: E731
-    ref = reference(plan)
     sched = CoopScheduler(choice, plan["stickiness"])
+    try:
+        if is_record:
+            Raw = make_record_class()
+            obj = cls(path, Raw, idx_arg)
+            unwrap = lambda r: r.text  # noqa: E731
+        else:
+            obj = cls(path, idx_arg)
+            unwrap = lambda r: r  # noqa: E731
+    except Exception as e:  # noqa
+        # no fault is injected that could excuse a failing constructor (short reads are absorbed by the io stack)
+        import traceback
+        return ([{"class": "exception", "site": f"constructor:{type(e).__name__}",
+                  "message": f"{plan['variant']}(...) on a file of {len(content_bytes(plan))} bytes raised {e!r} "
+                             + traceback.format_exc()[-400:]}], sched, fp, {"ops": 0, "interleaved_iter_steps": 0})
+    ref = reference(plan)
     if trace:
         sched.trace = []
     viol = []
